@@ -10,6 +10,7 @@ import JumanjiModel.Env.Maze.FloodLemmas
 import JumanjiModel.Env.Maze.BoundsLemmas
 import JumanjiModel.Env.Maze.RunLemmas
 import JumanjiModel.Env.SpecTieSSM
+import JumanjiModel.Env.Maze.SpecValid
 open Jm Maze
 
 /-- a 2×3 maze (non-square) with one wall, agent at (0,0), target at (1,2) -/
@@ -304,4 +305,103 @@ example : Consistent Props.mazeCfg Props.mazeEx ∧ 0 ≤ Props.mazeEx.stepCount
     Props.mazeEx.stepCount < Props.mazeCfg.timeLimit := by decide
 /-- the bound on `step_count` is attained: the terminal step of a 1-step episode shows `time_limit` -/
 example : (step { Props.mazeCfg with timeLimit := 1 } Props.mazeEx 2).2.obs.stepCount = 1 := by decide
+/-! #### (wave 4) membership in the DECLARED specs: structure, field order, shapes, dtypes and inclusive bounds -/
+open Sp PzS PkS
+
+/-- the model's `obsSpec` / `actionSpec` / reward and discount specs ARE the specs generated from the real spec objects
+(Gen/Specs.lean) for the three catalogue configurations of Maze (5×7 with a time limit, 3×5 and 4×4 with the default one):
+all seven observation leaves, in the order of the real `Spec` -/
+theorem maze_obsSpec_generated :
+    prefixed "observation_spec." (obsSpec ⟨5, 7, 9⟩) = declared "maze-5x7" "observation_spec." ∧
+    prefixed "observation_spec." (obsSpec ⟨3, 5, 15⟩) = declared "maze-none-3x5" "observation_spec." ∧
+    prefixed "observation_spec." (obsSpec ⟨4, 4, 16⟩) = declared "maze-none" "observation_spec." ∧
+    [("action_spec", Maze.actionSpec)] = declared "maze-5x7" "action_spec" ∧
+    [("action_spec", Maze.actionSpec)] = declared "maze-none-3x5" "action_spec" ∧
+    [("reward_spec", PzS.rewardSpec)] = declared "maze-5x7" "reward_spec" ∧
+    [("discount_spec", discountSpec)] = declared "maze-5x7" "discount_spec" := by
+  refine ⟨by decide, by decide, by decide, by decide, by decide, by decide, by decide⟩
+
+/-- the `reset` observation (ALL sizes) on top of ANY generated state whose walls have the configured shape and whose agent
+and target stand on free cells is accepted by `observation_spec.validate`: fields `agent_position.{row,col}`,
+`target_position.{row,col}`, `walls`, `step_count`, `action_mask`; shapes `()`, `()`, `()`, `()`, `(R, C)`, `()`, `(4,)`; dtypes
+int32 ×4, bool, int32, bool; bounds `[0, R − 1]`, `[0, C − 1]`, `[0, R − 1]`, `[0, C − 1]`, `[0, 1]`, none, `[0, 1]` -/
+theorem maze_reset_obs_valid (cfg : Cfg) (g : State) (hs : Jx.Grid.shaped g.walls cfg.numRows cfg.numCols = true)
+    (ha : free cfg g.walls g.agent) (ht : free cfg g.walls g.target) :
+    (obsSpec cfg).valid (toNValue (Maze.reset cfg g).2.obs) = true := Maze.reset_obs_valid cfg g hs ha ht
+
+/-- … in particular for EVERY admissible draw of `RandomGenerator` (a recursive-division maze of the configured size, two
+different free cells), where the reset state also satisfies the invariant `SpecInv` -/
+theorem maze_generate_obs_valid (cfg : Cfg) (d : GenDraw) (hv : validGenDraw cfg d) :
+    (obsSpec cfg).valid (toNValue (Maze.reset cfg (generate cfg d)).2.obs) = true ∧
+    SpecInv cfg (Maze.reset cfg (generate cfg d)).1 := Maze.generate_obs_valid cfg d hv
+
+/-- … and for the `ToyGenerator` state -/
+theorem maze_toy_obs_valid :
+    (obsSpec ⟨5, 5, 25⟩).valid (toNValue (Maze.reset ⟨5, 5, 25⟩ toyState).2.obs) = true ∧
+    SpecInv ⟨5, 5, 25⟩ (Maze.reset ⟨5, 5, 25⟩ toyState).1 := by decide
+
+/-- the invariant `SpecInv` (= `Consistent`: walls of the configured shape, fresh cached mask, agent and target on free cells)
+holds after `reset` and is preserved by EVERY step with an in-spec action — legal or a no-op against a wall / the border,
+MID or LAST -/
+theorem maze_specInv_invariant (cfg : Cfg) :
+    (∀ g : State, Jx.Grid.shaped g.walls cfg.numRows cfg.numCols = true → free cfg g.walls g.agent →
+      free cfg g.walls g.target → SpecInv cfg (Maze.reset cfg g).1) ∧
+    (∀ (s : State) (a : Nat), SpecInv cfg s → a < 4 → SpecInv cfg (step cfg s (a : Int)).1) :=
+  ⟨Maze.reset_specInv cfg, fun s a h ha => Maze.step_specInv cfg s h a ha⟩
+
+/-- the observation of EVERY step with an in-spec action from a state satisfying the invariant is a member of the spec —
+whatever the counter (the declared `step_count` is an unbounded `Array`), terminal step included -/
+theorem maze_step_obs_valid (cfg : Cfg) (s : State) (h : SpecInv cfg s) (a : Nat) (ha : a < 4) :
+    (obsSpec cfg).valid (toNValue (step cfg s (a : Int)).2.obs) = true := Maze.step_obs_valid cfg s h a ha
+
+example : SpecInv Props.mazeCfg Props.mazeEx := by decide
+
+/-- WHOLE EPISODES (and beyond): along the rollout (`Ep.rollout` = the L1 step iterated, no stop at LAST) of ANY in-spec
+actions from the reset of ANY admissible generator draw, EVERY emitted observation is a member of the spec and every
+state satisfies the invariant -/
+theorem maze_obs_valid_along (cfg : Cfg) (d : GenDraw) (hv : validGenDraw cfg d) (as : List Nat) (has : ∀ a ∈ as, a < 4)
+    (j : Nat) (e : State × TimeStep Obs)
+    (he : (Ep.rollout (fun s (a : Nat) => step cfg s (a : Int)) (Maze.reset cfg (generate cfg d)).1 as)[j]? = some e) :
+    (obsSpec cfg).valid (toNValue e.2.obs) = true ∧ SpecInv cfg e.1 :=
+  Maze.rollout_obs_valid cfg _ (Maze.generate_obs_valid cfg d hv).2 as has j e he
+
+/-- the same from any state satisfying the invariant -/
+theorem maze_rollout_obs_valid (cfg : Cfg) (s : State) (h : SpecInv cfg s) (as : List Nat) (has : ∀ a ∈ as, a < 4)
+    (j : Nat) (e : State × TimeStep Obs)
+    (he : (Ep.rollout (fun s (a : Nat) => step cfg s (a : Int)) s as)[j]? = some e) :
+    (obsSpec cfg).valid (toNValue e.2.obs) = true ∧ SpecInv cfg e.1 := Maze.rollout_obs_valid cfg s h as has j e he
+
+/-- what membership means (so the theorems above are not hollow): `validate` accepts an observation ONLY IF agent and target
+are on cells of the grid, `walls` has the declared shape and the mask has four entries -/
+theorem maze_obs_valid_only (cfg : Cfg) (o : Obs) (h : (obsSpec cfg).valid (toNValue o) = true) :
+    inGrid cfg o.agent ∧ inGrid cfg o.target ∧ shape2 o.walls = [cfg.numRows, cfg.numCols] ∧ o.actionMask.length = 4 :=
+  Maze.obs_valid_only cfg o h
+
+/-- positive and negative instances: the observation of the 2×3 example state; the agent one row below the grid; a spec for
+a grid with one more column; the counter does not matter -/
+example : (obsSpec Props.mazeCfg).valid (toNValue (obsOf Props.mazeEx)) = true ∧
+    (obsSpec Props.mazeCfg).valid (toNValue (obsOf { Props.mazeEx with agent := (2, 0) })) = false ∧
+    (obsSpec { Props.mazeCfg with numCols := 4 }).valid (toNValue (obsOf Props.mazeEx)) = false ∧
+    (obsSpec Props.mazeCfg).valid (toNValue (obsOf { Props.mazeEx with stepCount := 1000 })) = true := by decide
+
+/-- reward and discount of every `step` (ALL states, ALL action values) and of `reset` are accepted by `reward_spec`
+(Array((), float)) and `discount_spec` (BoundedArray((), float, 0, 1)) -/
+theorem maze_reward_discount_valid (cfg : Cfg) (s g : State) (a : Int) :
+    PzS.rewardSpec.valid (scalarArr (step cfg s a).2.reward) = true ∧
+    discountSpec.valid (scalarArr (step cfg s a).2.discount) = true ∧
+    PzS.rewardSpec.valid (scalarArr (Maze.reset cfg g).2.reward) = true ∧
+    discountSpec.valid (scalarArr (Maze.reset cfg g).2.discount) = true :=
+  ⟨(Maze.step_reward_discount_valid cfg s a).1, (Maze.step_reward_discount_valid cfg s a).2,
+   (Maze.reset_reward_discount_valid cfg g).1, (Maze.reset_reward_discount_valid cfg g).2⟩
+
+/-- `action_spec.generate_value()` = 0 (Up): the action spec is well-formed, the generated value is a member, `step` answers
+it in EVERY state with a protocol-conform timestep and — from a state satisfying the invariant — with an observation in the
+spec; membership in `action_spec` is "0 ≤ a < 4" -/
+theorem maze_accepts_generate_value (cfg : Cfg) (s : State) :
+    Maze.actionSpec.WF = true ∧ Maze.actionSpec.valid Maze.actionSpec.generate = true ∧
+    Maze.actionSpec.generate = actionArr 0 ∧ StepOK none false (step cfg s 0).2 = true ∧
+    (SpecInv cfg s → (obsSpec cfg).valid (toNValue (step cfg s 0).2.obs) = true) := Maze.accepts_generate_value cfg s
+
+theorem maze_action_spec_iff (a : Int) : Maze.actionSpec.valid (actionArr a) = true ↔ 0 ≤ a ∧ a < 4 :=
+  Maze.actionSpec_valid_iff a
 end Props.C01
